@@ -8,7 +8,10 @@ EPV/Spec/PuritySites.lean.  "Modulo the scan" (harness/c05_sites.py: syntactic, 
   object, or — outside tree_builders.py / xpath_nodes.py — to an XPath node wrapper;
 * every in-place write to a `namespaces` / `variables` dict and every rebinding of a `variables`
   attribute is one of the reviewed sites (all on dicts the package created or copied itself);
-* every piece of state stored on a syntax token at evaluation time is one of the reviewed sites.
+* every piece of state stored on a syntax token (or a Selector) at evaluation time is one of the
+  reviewed sites;
+* every write from inside a function to module-level / class-level / imported-module state, every
+  memoising decorator and every mutable default argument is one of the reviewed sites.
 -/
 import EPV.Gen.C05Sites
 import EPV.Spec.PuritySites
@@ -26,6 +29,11 @@ theorem variable_binds_reviewed : ∀ b ∈ variableBinds, b ∈ reviewedVariabl
 /-- No unreviewed state on syntax tokens: every evaluation-time write to `self` in a token class is
 a reviewed site. -/
 theorem token_state_sites_reviewed : ∀ s ∈ tokenWrites, s ∈ reviewedTokenWrites.map (·.1) := by decide
+
+/-- No unreviewed process-level state: every write, from inside a function, to a module-level name, a
+class attribute or an imported module, every memoising decorator and every mutable default argument
+in the package is a reviewed site (a cache added at module or class level fails this theorem). -/
+theorem module_state_sites_reviewed : ∀ s ∈ moduleWrites, s ∈ reviewedModuleWrites.map (·.1) := by decide
 
 /-- TEST (literals): the predicate rejects a write to an element from an evaluation function and a
 schema write, and accepts the json-to-xml builder. -/
